@@ -97,6 +97,10 @@ func varName(vr *types.Var, suffix string) string {
 func varNameForType(t types.Type) string {
 	nestedType := func(t types.Type) string {
 		if t, ok := t.(*types.Basic); ok {
+			if t.Kind() == types.UnsafePointer {
+				// "unsafe.Pointer" is not usable as part of an identifier
+				return "pointer"
+			}
 			return deCapitalise(t.String())
 		}
 		return varNameForType(t)
